@@ -104,6 +104,19 @@ Theorem C14_load_atomic_registry ws n w m l file s res b' s' : reachable_world n
 Proof. exact (fun H => load_model_reg_atomic ws n w m l file s res b' s' (reachable_Inv n w H)). Qed.
 Print Assumptions C14_load_atomic_registry.
 
+(* Any well-formed model file loaded into ANY model (same structure or not): the load performs
+   exactly the assignments of ModelReg.model_load_plan (for every key in file order: find it in
+   get_all_parameters of the loading model; unknown key = Error, what was loaded before stays),
+   each with the completely read record.  This is the abstraction at which the correspondence
+   run (harness/reg_drv.cc, ops `sl` / `pv`) executes the real Model::save / Model::load. *)
+Theorem C13_registry_load_any_model ws n' w' m' (es : entries) rest s0 : reachable_world n' w' ->
+  Forall wf_entry es -> (N.of_nat (length es) < 2 ^ 32)%N ->
+  exists b', load_model_reg ws w' m' (enc_model_file ws es ++ rest, s0) =
+               (fst (model_load_plan w' m' es), (b', apply_plan ws (snd (model_load_plan w' m' es)) s0)) /\
+             (fst (model_load_plan w' m' es) = Some tt -> b' = rest).
+Proof. exact (fun H => load_model_reg_any ws n' w' m' es rest s0 (reachable_Inv n' w' H)). Qed.
+Print Assumptions C13_registry_load_any_model.
+
 (* ---- non-vacuity: the 3-level hierarchy of Properties_C16 (diamond: model 3 under "a" and "b";
    Parameter 0 registered as root "w" and as "b"/""; Parameter 1 under a/c/x and b/c/x) *)
 Definition nA : name := [97%N].
